@@ -115,8 +115,16 @@ def retrieval_lines(tier, rng):
                         lines.append('tag_data [%d] %s %s %s %s %s' % (n, dims, lst([f64(p_axis)]), lst([f64(e_axis)]), lst([S(axis_unit)]), rm))
                         lines.append('slice [%d] %s %s %s %s %s' % (n, dims, lst([f64(pf)]), lst([f64(pf + ef)]), lst([S(req_unit)]), rm))
                         lines.append('mtag_data1 [%d] %s %s 1 %s %s 0 %s' % (n, dims, lst([f64(pf)]), lst([f64(ef)]), lst([S(req_unit)]), rm))
-    if tier == 'quick' and len(lines) > 2400:
-        lines = lines[::max(1, len(lines) // 2400)]
+                        # several positions in ONE request (every one of them has to be rescaled, not only the first)
+                        i2 = rng.randrange(0, n - 4); p2 = i2 * d
+                        ok2 = (Fraction(p2) * Fraction(10) ** k == Fraction(p2 * 10.0 ** k) == Fraction(i2 * si)
+                               and Fraction(p2 + ef) * Fraction(10) ** k == Fraction((p2 + ef) * 10.0 ** k) == Fraction(i2 * si + e_axis)
+                               and Fraction(p2 + ef) == Fraction(p2) + Fraction(ef))
+                        if ok2:
+                            for sel in ('[]', '[1,0]', '[0,1,1]'):
+                                lines.append('mtag_data [%d] %s %s 1 %s %s %s %s' % (n, dims, lst([f64(pf), f64(p2)]), lst([f64(ef), f64(ef)]), lst([S(req_unit)]), sel, rm))
+    if tier == 'quick' and len(lines) > 3600:
+        lines = lines[::max(1, len(lines) // 3600)]
     return lines
 
 def nontrivial(case, tags):
